@@ -178,7 +178,42 @@ func (p *Pkg) anyBits(e ast.Expr, locals map[types.Object][]BitPos) ([]BitPos, b
 		if !ok || !isUint8(tv.Type) {
 			return nil, false
 		}
-		return p.orBits(sel)
+		if o := identObj(p.Info, sel); o != nil {
+			if bs, ok := locals[o]; ok {
+				return bs, true
+			}
+		}
+		return p.orBitsL(sel, locals)
+	}
+	return nil, false
+}
+
+// orBitsL: orBits with integer locals that stand for an OR of bit selections
+func (p *Pkg) orBitsL(sel ast.Expr, locals map[types.Object][]BitPos) ([]BitPos, bool) {
+	if bs, ok := p.orBits(sel); ok {
+		return bs, true
+	}
+	switch x := sel.(type) {
+	case *ast.ParenExpr:
+		return p.orBitsL(x.X, locals)
+	case *ast.Ident:
+		if o := identObj(p.Info, x); o != nil {
+			if bs, ok := locals[o]; ok {
+				return bs, true
+			}
+		}
+	case *ast.BinaryExpr:
+		if x.Op == token.OR {
+			a, ok := p.orBitsL(x.X, locals)
+			if !ok {
+				return nil, false
+			}
+			b, ok := p.orBitsL(x.Y, locals)
+			if !ok {
+				return nil, false
+			}
+			return append(append([]BitPos(nil), a...), b...), true
+		}
 	}
 	return nil, false
 }
